@@ -321,6 +321,29 @@ func nondetSites(fns []*ssa.Function) []ndSite {
 				case ssa.CallInstruction:
 					n := callName(x.Common())
 					switch {
+					case n == "time.Unix" || n == "time.UnixMilli" || n == "time.UnixMicro" || strings.HasSuffix(n, "time.Time.Local") || strings.HasSuffix(n, "time.Time.In") || n == "time.ParseInLocation" || n == "time.Date":
+						// a time.Time carrying the host's local zone (or an arbitrary one): harmless as an instant,
+						// host-dependent as soon as its calendar fields or its text are used
+						if v, isV := in.(ssa.Value); isV {
+							if n == "time.Date" || strings.HasSuffix(n, "time.Time.In") || n == "time.ParseInLocation" {
+								// only when the location is not the constant UTC
+								a := x.Common().Args
+								if g, isG := stripLoad(a[len(a)-1]).(*ssa.Global); isG && g.Name() == "UTC" {
+									break
+								}
+								if n == "time.ParseInLocation" {
+									if g, isG := stripLoad(a[2]).(*ssa.Global); isG && g.Name() == "UTC" {
+										break
+									}
+								}
+							}
+							ok, why := zoneInsensitiveUse(v, 0)
+							if !ok {
+								out = append(out, ndSite{fn, in, "localzone", n, false, "a time in the host's local zone is used zone-sensitively (" + why + "): the result differs between hosts in different time zones; convert with .UTC() first"})
+							} else {
+								out = append(out, ndSite{fn, in, "localzone", n, true, "used only as an instant (arithmetic, comparison, Unix*) or converted with .UTC() first"})
+							}
+						}
 					case n == "time.Now" || n == "time.Since" || n == "time.Until":
 						v, _ := in.(ssa.Value)
 						ok := v != nil && flowsOnlyToTelemetry(v, 0)
@@ -427,6 +450,7 @@ func c11Controls(w *World, r *Report) {
 		"WallClock": "reported:wallclock", "MathRand": "reported:random", "CryptoRand": "reported:random", "Env": "reported:env",
 		"Goroutine": "reported:goroutine", "Select": "reported:select", "ReflectKeys": "reported:reflectmap", "SyncMap": "reported:syncmap",
 		"WriteGlobal": "reported:globalwrite", "Float": "reported:float",
+		"LocalZoneText": "reported:localzone", "LocalZoneAddDate": "reported:localzone", "LocalZoneInstantOK": "silent", "LocalZoneUTCOK": "silent",
 		"WriteKeeperCache": "reported:keeperstate", "WriteKeeperMap": "reported:keeperstate", "LocalCopyOK": "nothing found",
 	}
 	var names []string
@@ -502,4 +526,75 @@ func keeperHeldRoot(addr ssa.Value) string {
 		}
 	}
 	return ""
+}
+
+func stripLoad(v ssa.Value) ssa.Value {
+	if u, ok := v.(*ssa.UnOp); ok && u.Op == token.MUL {
+		return u.X
+	}
+	return v
+}
+
+// zoneInsensitiveUse follows the uses of a time.Time value (through phis, local variables and the
+// location-preserving methods Add, Truncate, Round) and reports whether every use is independent of the
+// value's location: arithmetic and comparison of instants, Unix*, IsZero, or a conversion with UTC().
+func zoneInsensitiveUse(v ssa.Value, depth int) (bool, string) {
+	if depth > 6 {
+		return false, "use chain too long"
+	}
+	refs := v.Referrers()
+	if refs == nil {
+		return true, ""
+	}
+	for _, ref := range *refs {
+		switch x := ref.(type) {
+		case *ssa.DebugRef:
+			continue
+		case *ssa.Phi:
+			if ok, why := zoneInsensitiveUse(x, depth+1); !ok {
+				return false, why
+			}
+		case *ssa.Store:
+			// a local variable: follow its loads
+			al, isAlloc := x.Addr.(*ssa.Alloc)
+			if !isAlloc || x.Val != v {
+				return false, "stored into memory"
+			}
+			for _, r2 := range *al.Referrers() {
+				if ld, isLd := r2.(*ssa.UnOp); isLd && ld.Op == token.MUL {
+					if ok, why := zoneInsensitiveUse(ld, depth+1); !ok {
+						return false, why
+					}
+				}
+			}
+		case ssa.CallInstruction:
+			n := callName(x.Common())
+			m := n[strings.LastIndex(n, ".")+1:]
+			isRecv := len(x.Common().Args) > 0 && x.Common().Args[0] == v && strings.Contains(n, "time.Time.")
+			if !isRecv {
+				// the value is an argument: instants may be compared / subtracted
+				if strings.Contains(n, "time.Time.") && (m == "Sub" || m == "Before" || m == "After" || m == "Equal" || m == "Compare") {
+					continue
+				}
+				return false, "passed to " + n
+			}
+			switch m {
+			case "UTC", "Unix", "UnixNano", "UnixMilli", "UnixMicro", "Sub", "Before", "After", "Equal", "Compare", "IsZero", "Nanosecond":
+				continue
+			case "Add", "Truncate", "Round":
+				if val, isV := x.(ssa.Value); isV {
+					if ok, why := zoneInsensitiveUse(val, depth+1); !ok {
+						return false, why
+					}
+				}
+			default:
+				return false, m + "() reads the calendar / clock fields or the text of the local time"
+			}
+		case *ssa.MakeInterface:
+			return false, "formatted or stored as an interface value (its text carries the zone)"
+		default:
+			return false, "used in " + ref.String()
+		}
+	}
+	return true, ""
 }
